@@ -156,8 +156,41 @@ def object_history(ctx, a, dt):
     hist = []
     for _ in range(rng.randint(2, 5)):
         op = rng.choice(['read', 'peaks', 'add_constant', 'reset_values', 'gen(trap=False)', 'gen(trap=True)', 'scale',
-                         'set_zero_residual_velocity', 'set_zero_residual_displacement', 'inplace-edit+reset_values', 'rebase_displacement'])
-        if op == 'add_constant':
+                         'set_zero_residual_velocity', 'set_zero_residual_displacement', 'inplace-edit+reset_values', 'rebase_displacement',
+                         'add_signal', 'add_signal', 'add_series'])
+        if op in ('add_signal', 'add_series'):
+            # (hx_r9c) combination with a second record whose holder has its own warm caches; the receiver's series / peaks may have been read before
+            warm = rng.choice(['none', 'series', 'peaks', 'series+peaks'])
+            if 'series' in warm:
+                _ = asig.velocity, asig.displacement
+            if 'peaks' in warm:
+                _ = asig.pga, asig.pgv, asig.pgd
+            b = rng.choice([2.0, -0.5, 1.5]) * np.roll(cur, rng.randint(1, 3))[::rng.choice([1, -1])] + rng.choice([0.0, 0.25, -1.0])
+            okind = rng.choice(['AccSignal/integrated', 'AccSignal/peaks-read', 'AccSignal/rectangle-rule', 'AccSignal/fresh', 'Signal']) if op == 'add_signal' else \
+                rng.choice(['array', 'list', 'values-of-integrated-AccSignal'])
+            other = eqsig.Signal(b.copy(), dt) if okind == 'Signal' else eqsig.AccSignal(b.copy(), dt)
+            if okind in ('AccSignal/integrated', 'values-of-integrated-AccSignal'):
+                _ = other.velocity, other.displacement
+            elif okind == 'AccSignal/peaks-read':
+                _ = other.pga, other.pgv, other.pgd
+            elif okind == 'AccSignal/rectangle-rule':
+                other.generate_displacement_and_velocity_series(trap=False)
+            if op == 'add_signal':
+                asig.add_signal(other)
+            else:
+                asig.add_series({'array': b.copy(), 'list': b.tolist()}.get(okind, other.values))
+            cur = cur + b
+            trap = True
+            op = f'{op}({okind}; receiver read before: {warm})'
+            ctx.hist('object-history/' + op.split(';')[0] + ')')
+            if okind.startswith('AccSignal') or okind.startswith('values-of'):
+                ot = okind != 'AccSignal/rectangle-rule'
+                wv, wd = sd.calc_velo_and_disp_from_accel_arr(b, dt, trap=ot)
+                ctx.oracle('the signal that was added keeps its own record, series and peaks', bool(
+                    np.array_equal(other.values, b) and np.array_equal(other.velocity, wv) and np.array_equal(other.displacement, wd)
+                    and fr(other.pga) == fr(np.max(np.abs(b))) and (not ot or (fr(other.pgv) == fr(np.max(np.abs(wv))) and fr(other.pgd) == fr(np.max(np.abs(wd)))))),
+                    {'a': a, 'dt': dt, 'history': list(hist) + [op], 'added': b})
+        elif op == 'add_constant':
             c = rng.choice([0.5, -1.0, 2.0])
             asig.add_constant(c)
             cur = cur + c
@@ -194,10 +227,10 @@ def object_history(ctx, a, dt):
         hist.append(op)
         v, d = sd.calc_velo_and_disp_from_accel_arr(cur, dt, trap=trap)
         inputs = {'a': a, 'dt': dt, 'history': list(hist)}
-        if op in ('read', 'gen(trap=False)', 'gen(trap=True)') or rng.random() < 0.5:
+        if op in ('read', 'gen(trap=False)', 'gen(trap=True)') or op.startswith('add_s') or rng.random() < 0.5:
             ctx.oracle('object-level velocity/displacement == array-level integral of the current record (requested rule) after any history',
                        np.array_equal(asig.velocity, v) and np.array_equal(asig.displacement, d), inputs, facts={'history': list(hist)})
-        if op == 'peaks' or rng.random() < 0.5:
+        if op == 'peaks' or op.startswith('add_s') or rng.random() < 0.5:
             if trap:   # the peak memo is documented to follow the lazily generated (trapezoid) series
                 ok = fr(asig.pga) == fr(np.max(np.abs(cur))) and fr(asig.pgv) == fr(np.max(np.abs(v))) and fr(asig.pgd) == fr(np.max(np.abs(d)))
                 ctx.oracle('pga/pgv/pgd == max|series| of the current record after any history', ok, inputs, facts={'history': list(hist)})
